@@ -179,6 +179,8 @@ class EngineBase:
         if self.is_int(v):
             return self.T.as_const(v)
         if is_real(v):
+            if getattr(self, "float_inf", None) is not None and v.eq(self.float_inf):
+                return float("inf")
             s = _fold(v)
             if z3.is_rational_value(s):
                 return s.numerator_as_long() / s.denominator_as_long()
@@ -205,6 +207,11 @@ class EngineBase:
         raise Unsupported(f"cannot lift constant {x!r}")
 
     def _nonfinite(self, x):
+        if x == float("inf") and getattr(self, "float_inf", None) is not None:
+            self.used_assumptions.add("float('inf') is a real constant larger than 10^30")
+            return self.float_inf
+        if x == float("-inf") and getattr(self, "float_inf", None) is not None:
+            return -self.float_inf
         raise Unsupported("non-finite float constant")
 
     def str_id(self, s: str):
